@@ -1,92 +1,117 @@
 ---------------------------- MODULE Fn_IndexMap ----------------------------
 (***************************************************************************)
 (* C56: the index hash table (indexMap, also reached through index.Index)  *)
-(* behaves as an insert-only multimap.                                     *)
+(* behaves as an insert-only multimap: every insertion adds one entry,     *)
+(* also when an equal entry (same key, same pack, same offset, even the    *)
+(* same lengths) is already stored.                                        *)
 (*                                                                         *)
 (* A recorded scenario r is a list of steps applied to one real table:     *)
-(*   add k t          insert one entry with key k and unique tag t         *)
-(*   addmany k ts     insert one entry per tag of ts, all with key k       *)
+(*   add k vs         insert one entry per element of the sequence vs, in  *)
+(*                    that order, all with tracked key k; an element is a  *)
+(*                    value code (pack, offset, length variant) - codes    *)
+(*                    may repeat within vs and between steps               *)
 (*   burst from to    insert filler entries number from..to, filler j has  *)
-(*                    its own key (never a tracked key) and tag FillBase+j *)
+(*                    its own key (never a tracked key) and value code j   *)
 (*   prealloc n / nop no change of contents                                *)
 (* After every step the driver observed (st.obs, a list of 0 or 1 records) *)
 (*   len                      number of entries the table reports          *)
-(*   look[x] for r.keys[x]    <<tags, get, has, first>>: tags of the       *)
-(*                            entries found for the key, tag of the        *)
+(*   look[x] for r.keys[x]    <<codes, get, has, first, iter>>: value codes*)
+(*                            of the entries found for the key, code of the*)
 (*                            single-entry lookup (-2 none), membership,   *)
-(*                            first-entry position (-1 none)               *)
+(*                            first-entry position (-1 none), value codes  *)
+(*                            of the entries with that key met by a full   *)
+(*                            iteration; or <<>> = "the same 5-tuple as in *)
+(*                            the previous observation" (records are read  *)
+(*                            slowly, most keys do not change in a step)   *)
 (*   fill[y] for r.fsamp[y]   the same for a fixed sample of filler numbers*)
-(*   it                       <<seen, distinct, min, max>> over the tags of*)
-(*                            tracked entries met while iterating          *)
-(*   fs                       <<filler entries met, distinct fillers met,  *)
-(*                            entries met whose payload or key is not what *)
-(*                            was inserted>>                               *)
-(* (JSON is slow to read in TLC, hence tuples and the iteration summary;   *)
-(* the summary is exact because the driver numbers tracked tags 1,2,3,...) *)
+(*   fs                       <<filler entries met by the iteration,       *)
+(*                            distinct fillers met, entries met whose key  *)
+(*                            or payload is not what was inserted>>        *)
+(* A code of -1 stands for an entry whose payload was never inserted.      *)
 (* The expected contents after step i are a function of steps 1..i only    *)
-(* (declarative: no table layout, buckets, growth or bloom bits here).     *)
+(* (declarative: no table layout, buckets, growth or bloom bits here); they*)
+(* are BAGS: the order in which a lookup or the iteration yields entries is*)
+(* left open, the multiplicity of every code is not.                       *)
 (***************************************************************************)
-EXTENDS Sequences, FiniteSets, Integers
+EXTENDS Sequences, FiniteSets, Integers, TLC
 
-FillBase == 1000000
 Range(s) == {s[i] : i \in DOMAIN s}
 
-\* tags inserted for tracked key k by steps 1..i
-TagsOf(steps, i, k) ==
-  UNION { IF steps[j].op = "add" /\ steps[j].k = k THEN {steps[j].t}
-          ELSE IF steps[j].op = "addmany" /\ steps[j].k = k THEN Range(steps[j].ts)
-          ELSE {} : j \in 1..i }
+C56Less(a, b) == a < b
+Sorted(s) == SortSeq(s, C56Less)
+\* two sequences hold the same elements with the same multiplicities
+SameBag(s, t) == Sorted(s) = Sorted(t)
 
-AllTracked(steps, i) ==
-  UNION { IF steps[j].op = "add" THEN {steps[j].t}
-          ELSE IF steps[j].op = "addmany" THEN Range(steps[j].ts)
-          ELSE {} : j \in 1..i }
+\* codes inserted for tracked key k by steps 1..i (one element per inserted entry)
+RECURSIVE InsOf(_, _, _)
+InsOf(steps, i, k) ==
+  IF i = 0 THEN <<>>
+  ELSE InsOf(steps, i - 1, k) \o (IF steps[i].op = "add" /\ steps[i].k = k THEN steps[i].vs ELSE <<>>)
+
+\* number of tracked entries inserted by steps 1..i
+RECURSIVE TrackedCount(_, _)
+TrackedCount(steps, i) ==
+  IF i = 0 THEN 0 ELSE TrackedCount(steps, i - 1) + (IF steps[i].op = "add" THEN Len(steps[i].vs) ELSE 0)
 
 \* number of fillers after step i (bursts are consecutive ranges starting at 1)
 FillCount(steps, i) ==
   LET S == {steps[j].to : j \in {q \in 1..i : steps[q].op = "burst"}}
   IN IF S = {} THEN 0 ELSE CHOOSE x \in S : \A y \in S : y <= x
 
-Tags(L) == L[1]
+Codes(L) == L[1]
 Get(L) == L[2]
 Has(L) == L[3]
 First(L) == L[4]
+Iter(L) == L[5]
 
-LookOK(T, L, total) ==
-  /\ Len(Tags(L)) = Cardinality(T) /\ Range(Tags(L)) = T     \* exactly the inserted entries, each once
-  /\ IF T = {} THEN Get(L) = -2 /\ First(L) = -1 /\ ~Has(L)
-     ELSE Get(L) \in T /\ Has(L) /\ First(L) \in 0..total
+\* Resolving "same as before": ResAll(r, n)[i] = <<look, fill>>, the 5-tuples of every tracked key and every sampled
+\* filler as observed after step i (i <= n).  (`\o <<>>' makes TLC build the tuple once instead of keeping a lazy function.)
+RECURSIVE ResAll(_, _)
+ResAll(r, i) ==
+  IF i = 0 THEN <<>>
+  ELSE LET prev == ResAll(r, i - 1)
+           o    == r.steps[i].obs[1]
+           look == [x \in DOMAIN r.keys |-> IF o.look[x] # <<>> \/ i = 1 THEN o.look[x] ELSE prev[i - 1][1][x]] \o <<>>
+           fill == [y \in DOMAIN r.fsamp |-> IF o.fill[y] # <<>> \/ i = 1 THEN o.fill[y] ELSE prev[i - 1][2][y]] \o <<>>
+       IN Append(prev, <<look, fill>>)
 
-ObsOK(r, i, o) ==
+\* E: the sequence of codes inserted for the key so far
+LookOK(E, L, total) ==
+  LET SE == Sorted(E)
+  IN /\ Sorted(Codes(L)) = SE      \* SameBag: the lookup yields exactly the inserted entries, each as often as inserted
+     /\ Sorted(Iter(L)) = SE       \* SameBag: so does the iteration
+     /\ IF E = <<>> THEN Get(L) = -2 /\ First(L) = -1 /\ ~Has(L)
+        ELSE Get(L) \in Range(E) /\ Has(L) /\ First(L) \in 0..total
+
+\* o: observation after step i; look, fill: its resolved 5-tuples
+ObsOK(r, i, o, look, fill) ==
   LET c     == FillCount(r.steps, i)
-      AT    == AllTracked(r.steps, i)
-      total == Cardinality(AT) + c
-      firsts == [x \in DOMAIN r.keys |-> First(o.look[x])]
-      ffirsts == [y \in DOMAIN r.fsamp |-> First(o.fill[y])]
+      total == TrackedCount(r.steps, i) + c
+      firsts == [x \in DOMAIN r.keys |-> First(look[x])] \o <<>>
+      ffirsts == [y \in DOMAIN r.fsamp |-> First(fill[y])] \o <<>>
   IN /\ o.len = total
-     /\ Len(o.look) = Len(r.keys) /\ Len(o.fill) = Len(r.fsamp)
-     /\ \A x \in DOMAIN r.keys : LookOK(TagsOf(r.steps, i, r.keys[x]), o.look[x], total)
+     /\ \A x \in DOMAIN r.keys : LookOK(InsOf(r.steps, i, r.keys[x]), look[x], total)
      /\ \A y \in DOMAIN r.fsamp :
-          LookOK(IF r.fsamp[y] <= c THEN {FillBase + r.fsamp[y]} ELSE {}, o.fill[y], total)
+          LookOK(IF r.fsamp[y] <= c THEN <<r.fsamp[y]>> ELSE <<>>, fill[y], total)
      \* positions identify entries: different keys never share a first-entry position
      /\ \A x1, x2 \in DOMAIN r.keys : (x1 # x2 /\ firsts[x1] # -1) => firsts[x1] # firsts[x2]
      /\ \A y1, y2 \in DOMAIN r.fsamp : (y1 # y2 /\ ffirsts[y1] # -1) => ffirsts[y1] # ffirsts[y2]
      /\ \A x \in DOMAIN r.keys : \A y \in DOMAIN r.fsamp : firsts[x] # -1 => firsts[x] # ffirsts[y]
-     \* iteration yields every entry exactly once: as many tracked entries as inserted, all distinct, none outside
-     \* the inserted tags (smallest and largest tag met are inserted tags; tags are consecutive numbers)
-     /\ o.it[1] = Cardinality(AT) /\ o.it[2] = Cardinality(AT)
-     /\ (AT # {} => o.it[3] \in AT /\ o.it[4] \in AT)
+     \* iteration yields every entry exactly once: per tracked key the bag above, every filler once, nothing else
      /\ o.fs[1] = c /\ o.fs[2] = c /\ o.fs[3] = 0
 
-\* the first-entry position of a key never changes once the key has an entry
-Stable(r, p, q) ==   \* p earlier observation, q later observation
-  /\ \A x \in DOMAIN r.keys : First(p.look[x]) # -1 => First(q.look[x]) = First(p.look[x])
-  /\ \A y \in DOMAIN r.fsamp : First(p.fill[y]) # -1 => First(q.fill[y]) = First(p.fill[y])
+\* the first-entry position of a key never changes once the key has an entry (p earlier, q later resolved observation)
+Stable(r, p, q) ==
+  /\ \A x \in DOMAIN r.keys : First(p[1][x]) # -1 => First(q[1][x]) = First(p[1][x])
+  /\ \A y \in DOMAIN r.fsamp : First(p[2][y]) # -1 => First(q[2][y]) = First(p[2][y])
 
 \* the driver observes after every step (a step without observation only occurs after a panic, which fails anyway)
 RecOK(r) ==
   /\ r.panic = ""
-  /\ \A i \in DOMAIN r.steps : Len(r.steps[i].obs) = 1 => ObsOK(r, i, r.steps[i].obs[1])
-  /\ \A i \in 2..Len(r.steps) :
-       (Len(r.steps[i-1].obs) = 1 /\ Len(r.steps[i].obs) = 1) => Stable(r, r.steps[i-1].obs[1], r.steps[i].obs[1])
+  /\ \A i \in DOMAIN r.steps :
+       /\ Len(r.steps[i].obs) = 1
+       /\ Len(r.steps[i].obs[1].look) = Len(r.keys) /\ Len(r.steps[i].obs[1].fill) = Len(r.fsamp)
+  /\ LET R == ResAll(r, Len(r.steps))
+     IN /\ \A i \in DOMAIN r.steps : ObsOK(r, i, r.steps[i].obs[1], R[i][1], R[i][2])
+        /\ \A i \in 2..Len(r.steps) : Stable(r, R[i - 1], R[i])
 =============================================================================
